@@ -1,9 +1,16 @@
 #!/bin/sh
 # usage: tools/trymut.sh <patch.diff> <prop> [<prop> ...]   — applies a seeded change to /repo, runs the quick checks, reverts
+# /repo is restored on every exit path that can be trapped; an unfinished run leaves /verif/.mutation-in-progress behind.
 set -u
 PATCH=$1; shift
+MARK=/verif/.mutation-in-progress
 cd /repo || exit 2
-if ! git diff --quiet; then echo "repo dirty"; exit 2; fi
+if [ -e "$MARK" ]; then echo "unfinished mutation run: $(cat $MARK) — restore /repo (git -C /repo checkout -- .) and remove $MARK"; exit 2; fi
+if ! git diff --quiet || ! git diff --cached --quiet; then echo "repo dirty"; exit 2; fi
+restore() { git -C /repo checkout -- . ; rm -f "$MARK"; }
+trap 'restore; exit 130' INT TERM HUP
+trap 'restore' EXIT
+echo "$PATCH" > "$MARK"
 git apply "$PATCH" || { echo "patch does not apply"; exit 2; }
 cd /verif
 for p in "$@"; do
@@ -12,4 +19,5 @@ for p in "$@"; do
   timeout 1500 ./check "$p" quick 2>&1 | grep -E "^(VIOLATION|OK|KNOWN)|obligations|cases," | head -8
   [ -f "/tmp/evidence-$p.json.keep" ] && mv "/tmp/evidence-$p.json.keep" "evidence/$p.json"
 done
-cd /repo && git checkout -- . && git status --short | head -3
+restore
+git -C /repo status --short | head -3
